@@ -343,6 +343,10 @@ def parse_vspec(path):
                     k = int(r2)
                     fs.loops[k], i = block(i + 1)
                 elif h2 == '@at':
+                    if r2.strip() == 'start':
+                        text, i = block(i + 1)
+                        fs.ats.append(('start', '', text))
+                        continue
                     m = re.match(r'(before|after)\s+"((?:[^"\\]|\\.)*)"', r2)
                     if not m:
                         raise Undecided('%s:%d: bad @at' % (path, i + 1))
@@ -611,6 +615,9 @@ class Extractor:
                 k += 1
             inserts.append((toks[k].start, '\n' + text + '\n', 1))
         for pos, needle, text in fs.ats:
+            if pos == 'start':
+                inserts.append((toks[0].end, '\n' + text + '\n', 0))
+                continue
             ntoks = [t.text for t in lex(needle)]
             hit = None
             for k in range(len(toks) - len(ntoks) + 1):
